@@ -9,6 +9,7 @@ import (
 
 type wkind struct {
 	Name   string
+	Deep   bool // in the quick tier only used at depth <= 1 (a 2-iteration sibling covers it at depth 2)
 	Loop   bool // break/continue inside the slot are consumed here
 	NoCont bool // `continue` in the slot would never terminate (for { ...; break })
 	Func   bool // the slot is inside a function body (break/continue may not cross)
@@ -23,11 +24,11 @@ var wkinds = []wkind{
 	{Name: "elifcond"}, // 3  if false { } else if (a += K) > 0 { . }       (assignment expression in the else-if condition)
 	{Name: "loop1", Loop: true, NoCont: true}, // 4  for { . ; break }
 	{Name: "loop2", Loop: true},               // 5  k = 0; for { k = k + 1; if k > 2 { break }; . }
-	{Name: "while1", Loop: true},              // 6  k = 0; for k < 1 { k = k + 1; . }
+	{Name: "while1", Loop: true, Deep: true},              // 6  k = 0; for k < 1 { k = k + 1; . }
 	{Name: "while2", Loop: true},              // 7  k = 0; for k < 2 { k = k + 1; . }
 	{Name: "cfor1", Loop: true},               // 8  for i = 0; i < 1; i++ { . }
 	{Name: "cfor2", Loop: true},               // 9  for i = 0; i < 2; i++ { . }
-	{Name: "forin1", Loop: true},              // 10 for x in [v] { . }
+	{Name: "forin1", Loop: true, Deep: true},              // 10 for x in [v] { . }
 	{Name: "forin2", Loop: true},              // 11 for x in [v, w] { . }
 	{Name: "forinA2", Loop: true},             // 12 for a in [v, w] { . }                            (pool name as loop variable)
 	{Name: "case", Switch: true},              // 13 switch 1 { case 1: . }
@@ -52,13 +53,17 @@ var wkinds = []wkind{
 	{Name: "switchF", Func: true}, // 31 switch func a() { . }() { case 1: }
 	{Name: "caseF", Func: true},   // 32 switch 1 { case func a() { . }(): }
 	{Name: "cforF", Func: true},   // 33 for var i, j = 0, func a() { . }(); i < 1; i++ { }
+	// for-in over a map with a single entry (so the iteration order is fixed), pool names as key / value variable
+	{Name: "formapK", Loop: true},  // 34 for a in {"kx": v} { . }
+	{Name: "formapV", Loop: true},  // 35 for x, a in {"kx": v} { . }
+	{Name: "formapKV", Loop: true}, // 36 for a, b in {"kx": v} { . }
 }
 
 // ---------- spine descriptor ----------
 
 type desc struct {
 	W       []int `json:"w"`       // construct kinds, outermost first
-	Payload []int `json:"payload"` // tokens: 0 a=v 1 var a=v 2 read a 3 b=v 4 var b=v 5 read b
+	Payload []int `json:"payload"` // tokens: 0 a=v 1 var a=v 2 read a 3 b=v 4 var b=v 5 read b 6 func a() { }
 	Exit    int   `json:"exit"`    // 0 fall through 1 break 2 continue 3 return 4 throw (caught by an outer try)
 	Pre     int   `json:"pre"`     // bit 0: a = 1 at top level, bit 1: b = 2 at top level
 }
@@ -104,7 +109,7 @@ func (d desc) relevant() [nDims]bool {
 			rel[0] = true
 		case w == 8 || w == 9:
 			rel[1] = true
-		case w >= 10 && w <= 12:
+		case w >= 10 && w <= 12, w >= 34 && w <= 36:
 			rel[2] = true
 		case w >= 15 && w <= 21:
 			rel[3] = true
@@ -234,6 +239,12 @@ func (b *builder) construct(kind, k int, slot []*stmt) []*stmt {
 		return []*stmt{{Op: opSwitch, CaseFn: &fnlit{Body: slot}}}
 	case 33:
 		return []*stmt{{Op: opCFor, Name: "i" + sfx, N: 1, InitFn: &fnlit{Body: slot}}}
+	case 34:
+		return []*stmt{{Op: opForIn, Name: "a", MapKey: "kx", Vals: []int64{K + 1}, Body: slot}}
+	case 35:
+		return []*stmt{{Op: opForIn, Name: "x" + sfx, Name2: "a", MapKey: "kx", Vals: []int64{K + 1}, Body: slot}}
+	case 36:
+		return []*stmt{{Op: opForIn, Name: "a", Name2: "b", MapKey: "kx", Vals: []int64{K + 1}, Body: slot}}
 	}
 	panic("bad construct kind")
 }
@@ -241,6 +252,11 @@ func (b *builder) construct(kind, k int, slot []*stmt) []*stmt {
 func payloadStmts(p []int) []*stmt {
 	var out []*stmt
 	for i, t := range p {
+		if t == 6 {
+			// a named function declaration: an expression statement that binds a name
+			out = append(out, &stmt{Op: opFunc, Name: "a"})
+			continue
+		}
 		n := "a"
 		if t >= 3 {
 			n = "b"
@@ -316,11 +332,19 @@ func payloads(maxLen int) [][]int {
 		out = append(out, cur...)
 		prev = cur
 	}
+	// token 6, `func a() { }`: alone, and combined with reads only (so that the
+	// block consists of expression statements only)
+	if maxLen >= 1 {
+		out = append(out, []int{6})
+	}
+	if maxLen >= 2 {
+		out = append(out, []int{6, 2}, []int{6, 5}, []int{2, 6}, []int{5, 6})
+	}
 	return out
 }
 
 // heads enumerates (W-vector, exit, pre) for one depth.
-func heads(depth int) []desc {
+func heads(depth int, thorough bool) []desc {
 	var out []desc
 	var rec func(w []int)
 	rec = func(w []int) {
@@ -336,6 +360,9 @@ func heads(depth int) []desc {
 			return
 		}
 		for k := range wkinds {
+			if wkinds[k].Deep && depth >= 2 && !thorough {
+				continue
+			}
 			rec(append(w, k))
 		}
 	}
